@@ -318,14 +318,21 @@ def case(cls, op, *args, strict=False, **extra):
 
 
 def case_to_json(c):
-    d = {k: v for k, v in c.items() if k != "args"}
+    d = {k: v for k, v in c.items() if k not in ("args", "expect")}
     d["args"] = [enc(a) for a in c["args"]]
+    if c.get("expect") is not None:          # generator-side expected value (may hold bytes): value notation
+        d["expect_enc"] = enc(list(c["expect"]))
     return d
 
 
 def case_from_json(d):
-    c = dict(d)
+    c = {k: v for k, v in d.items() if k != "expect_enc"}
     c["args"] = [dec(a) for a in d["args"]]
+    if d.get("expect_enc") is not None:
+        e = dec(d["expect_enc"])
+        c["expect"] = (e[0], e[1])
+    elif d.get("expect") is not None:
+        c["expect"] = tuple(d["expect"])
     return c
 
 
